@@ -54,7 +54,7 @@ def gen(tier, rng):
     # out-of-range elements one at a time
     for _ in range(300 if tier == "quick" else 5000):
         s = g.gen_sps(rng)
-        which = rng.randrange(8)
+        which = rng.randrange(9)
         if which == 0:
             s["id"] = rng.choice([32, 33, 255, g.UE_MAX])
         elif which == 1:
@@ -73,6 +73,10 @@ def gen(tier, rng):
             s["vui"]["restr"][rng.choice(["a", "b", "c", "d"])] = rng.choice([17, 18, 1000])
         elif which == 7 and s["vui"] is not None and s["vui"]["nal_hrd"] is not None:
             s["vui"]["nal_hrd"]["cpb_cnt_minus1"] = 32
+        elif which == 8:
+            # one more POC cycle entry than the 255 allowed (found missing by tools/boundary_sweep.py)
+            s["poc_type"] = 1
+            s["offsets_ref_frame"] = [rng.randrange(-3, 4) for _ in range(rng.choice([256, 256, 257, 300]))]
         cases.append("sps raw:" + hx(g.enc_sps(s, rng).bytes()))
     # random bytes
     for _ in range(500 if tier == "quick" else 10000):
